@@ -1315,8 +1315,10 @@ package rib
 //@ unit RIB.SetPostChangeHook
 //@ requires r != nil && (forall k in dom(r.niRIB) :: r.niRIB[k] != nil) && nolocks(RIBHolder.mu) && held(r.nrMu) == 0
 //@ ensures[all-instances] r.postChangeHook == fn && hookInv(r)
+//@ ensures[only-own-instances] forall h: *RIBHolder :: (forall k in dom(r.niRIB) :: r.niRIB[k] != h) ==> h.postChangeHook == old(h.postChangeHook)
 //@ loop 1 at "range r.niRIB" invariant forall k in visited :: k in dom(r.niRIB) ==> r.niRIB[k].postChangeHook == fn
 //@ loop 1 invariant nolocks(RIBHolder.mu) && r.postChangeHook == fn && held(r.nrMu) == 2
+//@ loop 1 invariant forall h: *RIBHolder :: (forall k in dom(r.niRIB) :: r.niRIB[k] != h) ==> h.postChangeHook == old(h.postChangeHook)
 //@ assigns r.postChangeHook, all(RIBHolder.postChangeHook)
 //@ props C16 C12:safety
 
